@@ -44,6 +44,7 @@ Definition wf_event (ev : event) : bool :=
   | ERecordSat sc est dets => in_u32 sc && in_u32 est && forallb (fun p => wf_answer (snd p)) dets
   | ERebuild _ tip _ _ _ sched anchor _ => in_u32 tip && in_u32 sched && in_u32 anchor
   | EStatuses sc est => in_u32 sc && in_u32 est
+  | EWalletRewind req achieved => in_u32 req && in_u32 achieved
   | _ => true
   end.
 
